@@ -260,11 +260,14 @@ Nearest(p, cont) ==
                 /\ IF cont = 0 THEN UNCHANGED <<cur, mode, out>>
                    ELSE cur' = [tid |-> ttid, nx |-> found] /\ mode' = "nwalk" /\ out' = <<>>
         /\ UNCHANGED <<ttid, unfinished>>
+\* a nearest-key search on an empty table reports "not found" (and nothing else happens)
+NearestEmpty == /\ Idle /\ tree = Nil /\ lastOp' = Op("nearest", 1, 0, 0) /\ UNCHANGED <<tree, ttid, cur, out, mode, unfinished, bad>>
 Next == \/ \E k \in Keys, v \in Vals : Put(k, v)
         \/ \E k \in Keys : Remove(k) \/ Get(k)
         \/ FindMin \/ FindMax \/ SizeOp \/ Clear \/ Debug
         \/ (WithIter /\ (GetNext \/ Abandon \/ \E p \in 0..(MaxKey + 1), c \in 0..1 : Nearest(p, c)))
         \/ (WithIter /\ RemoveInLoop)
+        \/ (WithIter /\ NearestEmpty)
 Spec == Init /\ [][Next]_vars
 
 \* ---------------------------------------------------------------- properties checked on the model
